@@ -77,6 +77,8 @@ def write(pid: str, level: str, tier: str, master: int, total: dict, known_hits:
         "capped": total["status"].get("capped", 0),
         "inconclusive": total["status"].get("inconclusive", 0),
     }
+    if total.get("library_reach"):
+        cov["library_reach"] = total["library_reach"]
     if total.get("states"):
         cov["states"] = len(total["states"])
         cov["transitions"] = len(total["transitions"])
